@@ -68,6 +68,9 @@ pub fn h_inputs_slim<T: DecodeWithMemTracking + Spec, const L: usize>() {
 	let r2 = T::decode_with_depth_limit(u32::MAX, &mut CountedInput::new(&mut MemTrackingInput::new(&mut s, usize::MAX)));
 	same_outcome(&r0, u0, &r2, len - s.len());
 }
+#[kani::proof] #[kani::unwind(16)] pub fn c08q_in_arr_duration_1() { h_inputs_slim::<[core::time::Duration; 1], 13>() }
+#[kani::proof] #[kani::unwind(28)] pub fn c08t_in_arr_duration_2() { h_inputs_slim::<[core::time::Duration; 2], 25>() }
+#[kani::proof] #[kani::unwind(16)] pub fn c08q_in_arr_optbool_3() { h_inputs_slim::<[parity_scale_codec::OptionBool; 3], 4>() }
 #[kani::proof] #[kani::unwind(19)] pub fn c08t_in_compact_u64_slim() { h_inputs_slim::<Compact<u64>, 10>() }
 
 /// empty-encoding element types with a non-zero size: a sequence of them is just its count, whatever the input kind
@@ -220,33 +223,7 @@ pub fn c08q_bytes_count_exceeds_data() {
 pub mod ioreader {
 	use super::*;
 	use parity_scale_codec::IoReader;
-	pub struct Short<'a> { pub data: &'a [u8], pub chunk: usize }
-	impl<'a> std::io::Read for Short<'a> {
-		fn read(&mut self, buf: &mut [u8]) -> std::io::Result<usize> {
-			let mut n = buf.len();
-			if n > self.chunk { n = self.chunk; }
-			if n > self.data.len() { n = self.data.len(); }
-			buf[..n].copy_from_slice(&self.data[..n]);
-			self.data = &self.data[n..];
-			Ok(n)
-		}
-	}
-	pub fn h_ioreader<T: Decode + Spec, const L: usize>() {
-		let bytes: [u8; L] = kani::any();
-		let chunk: usize = kani::any();
-		kani::assume(chunk >= 1 && chunk <= L);
-		let mut s = &bytes[..];
-		let r0 = T::decode(&mut s);
-		let mut rd = IoReader(Short { data: &bytes[..], chunk });
-		let r1 = T::decode(&mut rd);
-		match (&r0, &r1) {
-			(Ok(a), Ok(b)) => assert!(a.same(b) && s.len() == rd.0.data.len(), "short-chunk reader: value or consumption differs from slice decode"),
-			(Err(_), Err(_)) => {},
-			_ => assert!(false, "short-chunk reader: success differs from slice decode"),
-		}
-		core::mem::forget(r1);
-		core::mem::forget(r0);
-	}
+	pub use crate::gen::iord::*;
 	/// zero-length reads (empty arrays) through a reader: must succeed like on a slice, at any chunk size and at end of input
 	#[kani::proof]
 	#[kani::unwind(8)]
@@ -263,7 +240,10 @@ pub mod ioreader {
 		assert!(<[u8; 0]>::decode(&mut empty).is_ok() && <[u16; 0]>::decode(&mut &bytes[..0]).is_ok());
 		core::mem::forget(r1);
 	}
-	#[kani::proof] #[kani::unwind(8)] pub fn c08q_ioreader_tuple() { h_ioreader::<(Compact<u32>, Option<u16>), 5>() }
+	#[kani::proof] #[kani::unwind(8)] pub fn c08t_ioreader_tuple() { h_ioreader::<(Compact<u32>, Option<u16>), 5>() }
+	#[kani::proof] #[kani::unwind(8)] pub fn c08q_ioreader_opt_u16() { h_ioreader::<Option<u16>, 4>() }
+	#[kani::proof] #[kani::unwind(8)] pub fn c08q_ioreader_arr_u16() { h_ioreader::<[u16; 2], 5>() }
+	#[kani::proof] #[kani::unwind(8)] pub fn c08q_ioreader_arr_u8() { h_ioreader::<[u8; 4], 5>() }
 	#[kani::proof] #[kani::unwind(8)] pub fn c08t_ioreader_u32() { h_ioreader::<u32, 4>() }
 	#[kani::proof] #[kani::unwind(8)] pub fn c08t_ioreader_arr() { h_ioreader::<[Option<bool>; 2], 4>() }
 }
